@@ -160,7 +160,11 @@ func (x *ExprEnv) ident(name string) tval {
 		return v
 	}
 	if g, ok := x.e.ghost[name]; ok {
-		return tval{t: g, typ: types.Typ[types.Bool]}
+		t := x.e.ghostType[name]
+		if t == nil {
+			t = types.Typ[types.Bool]
+		}
+		return tval{t: g, typ: t}
 	}
 	if x.pkg != nil {
 		if o := x.pkg.Scope().Lookup(name); o != nil {
@@ -444,6 +448,9 @@ func (x *ExprEnv) call(n *ast.CallExpr) tval {
 				delete(x.vars, v.Name)
 			}
 			return tval{t: fmt.Sprintf("(forall ((%s %s)) (=> %s %s))", qn, e.d.sortOf(mu.Key()), dom, body.t), typ: bt}
+		case "samearray":
+			a, b := x.tr(n.Args[0]), x.tr(n.Args[1])
+			return tval{t: "(and (not (= (sarr " + a.t + ") 0)) (= (sarr " + a.t + ") (sarr " + b.t + ")))", typ: bt}
 		case "sametype":
 			a, b := x.tr(n.Args[0]), x.tr(n.Args[1])
 			return tval{t: "(= (itag " + a.t + ") (itag " + b.t + "))", typ: bt}
